@@ -674,6 +674,111 @@ class SimSemaphore:
         self.release()
 
 
+class SimQueue:
+    """queue.Queue / LifoQueue / PriorityQueue / SimpleQueue on the scheduler (the stdlib classes block in real locks)"""
+
+    def __init__(self, sched, maxsize=0, kind="fifo"):
+        import collections
+        self._s = sched
+        self.maxsize = maxsize
+        self._kind = kind
+        self._q = [] if kind == "prio" else collections.deque()
+        self.unfinished_tasks = 0
+
+    def qsize(self):
+        return len(self._q)
+
+    def empty(self):
+        return not self._q
+
+    def full(self):
+        return 0 < self.maxsize <= len(self._q)
+
+    def _put(self, item):
+        if self._kind == "prio":
+            import heapq
+            heapq.heappush(self._q, item)
+        else:
+            self._q.append(item)
+
+    def _get(self):
+        if self._kind == "prio":
+            import heapq
+            return heapq.heappop(self._q)
+        if self._kind == "lifo":
+            return self._q.pop()
+        return self._q.popleft()
+
+    def put(self, item, block=True, timeout=None):
+        import queue
+        s = self._s
+        if not (s.killing or s.me() is None):
+            s.yield_point("q.put")
+            if self.full():
+                if not block:
+                    raise queue.Full
+                if not s.block(lambda: not self.full(), timeout, "q.put"):
+                    raise queue.Full
+        self._put(item)
+        self.unfinished_tasks += 1
+
+    def put_nowait(self, item):
+        return self.put(item, block=False)
+
+    def get(self, block=True, timeout=None):
+        import queue
+        s = self._s
+        if not (s.killing or s.me() is None):
+            s.yield_point("q.get")
+            if not self._q:
+                if not block:
+                    raise queue.Empty
+                if not s.block(lambda: bool(self._q), timeout, "q.get"):
+                    raise queue.Empty
+        elif not self._q:
+            raise queue.Empty
+        return self._get()
+
+    def get_nowait(self):
+        return self.get(block=False)
+
+    def task_done(self):
+        if self.unfinished_tasks <= 0:
+            raise ValueError("task_done() called too many times")
+        self.unfinished_tasks -= 1
+        if not self._s.killing:
+            self._s.yield_point("q.done")
+
+    def join(self):
+        s = self._s
+        if s.killing or s.me() is None:
+            return
+        if self.unfinished_tasks:
+            s.block(lambda: self.unfinished_tasks == 0, None, "q.join")
+
+
+class QueueFacade:
+    """stands in for the ``queue`` module attribute of Pyro5 modules"""
+
+    def __init__(self, sched):
+        import queue
+        self._s = sched
+        self.Empty = queue.Empty
+        self.Full = queue.Full
+
+    def Queue(self, maxsize=0):
+        return SimQueue(self._s, maxsize)
+
+    def LifoQueue(self, maxsize=0):
+        return SimQueue(self._s, maxsize, "lifo")
+
+    def PriorityQueue(self, maxsize=0):
+        return SimQueue(self._s, maxsize, "prio")
+
+    def SimpleQueue(self):
+        return SimQueue(self._s, 0)
+
+
 def _make_timer(sched):
     class SimTimer(threading.Thread):
         """threading.Timer on the virtual clock (Thread.start is patched: it becomes a simulated thread)"""
